@@ -141,17 +141,25 @@ class Actor:
             self.mname = b""
             self.pid = 0
 
+    # destination fields a sender puts into the header of its control frames (they carry no meaning there;
+    # pyrtma.Client sends 0/0)
+    ctl_dest = (0, 0)
+
+    def _ctl(self, mt, t):
+        dm, dh = self.ctl_dest
+        self.send(mt, C.pack_sub(t), dest_mod=dm, dest_host=dh)
+
     def subscribe(self, t):
-        self.send(C.MT_SUBSCRIBE, C.pack_sub(t))
+        self._ctl(C.MT_SUBSCRIBE, t)
 
     def unsubscribe(self, t):
-        self.send(C.MT_UNSUBSCRIBE, C.pack_sub(t))
+        self._ctl(C.MT_UNSUBSCRIBE, t)
 
     def pause(self, t):
-        self.send(C.MT_PAUSE_SUBSCRIPTION, C.pack_sub(t))
+        self._ctl(C.MT_PAUSE_SUBSCRIPTION, t)
 
     def resume(self, t):
-        self.send(C.MT_RESUME_SUBSCRIPTION, C.pack_sub(t))
+        self._ctl(C.MT_RESUME_SUBSCRIPTION, t)
 
     def disconnect(self):
         self.send(C.MT_DISCONNECT)
